@@ -1,7 +1,8 @@
 (* TransparencyFacts: T10c -- the lines of a text do not depend on which of
-   the four encodings carries it, nor on how the bytes are delivered, outside
-   the narrow class D5 (a UTF-16 code unit other than U+000A containing the
-   byte 0x0A) and a text that itself starts with U+FEFF. *)
+   the four encodings carries it, nor on how the bytes are delivered, for
+   every Unicode content (a BOM-less text that itself starts with U+FEFF *is* a
+   text with BOM).  What the lines of an arbitrary -- also malformed -- byte
+   stream are, per encoding. *)
 From RM Require Import Model.Text Model.Encoding Model.Reader.
 From RM Require Import Proofs.EncodingFacts Proofs.ReaderFacts Gen.Generated.
 Require Import Lia ZArith List ZifyBool.
@@ -23,21 +24,6 @@ Fixpoint text_lines (n : nat) (s : str) : list str :=
       end
   end.
 Definition lines_of_text (s : str) : list str := text_lines (S (length s)) s.
-
-Definition nolf (l : list Z) : Prop := Forall (fun c => c <> LF) l.
-
-Lemma split_line_decomp : forall l : list Z,
-  (nolf l /\ split_line LF l = (l, [])) \/
-  (exists p q, l = p ++ LF :: q /\ nolf p /\ split_line LF l = (p ++ [LF], q)).
-Proof.
-  induction l as [|x t IH].
-  - left. split; [constructor|reflexivity].
-  - cbn [split_line]. destruct (Z.eqb_spec x LF) as [E|E].
-    + right. exists [], t. subst x. repeat split. constructor.
-    + destruct IH as [(N & H)|(p & q & Ht & N & H)].
-      * left. rewrite H. split; [constructor; assumption|reflexivity].
-      * right. exists (x :: p), q. rewrite H, Ht. repeat split. constructor; assumption.
-Qed.
 
 Lemma split_line_nolf_app : forall a m, nolf a ->
   split_line LF (a ++ m) = (a ++ fst (split_line LF m), snd (split_line LF m)).
@@ -96,14 +82,12 @@ Proof.
 Qed.
 End Generic.
 
-(* ---------- encodings in which a line feed ends with the byte 0x0A ---------- *)
+(* ---------- UTF-8: the line ends with the first byte 0x0A ---------- *)
 
-Section NonLE.
-Variable e : encoding.
+Section ByteLF.
 Variable enc_ : str -> bytes.
 Variable good : str -> Prop.
 Variable pre : bytes.                       (* bytes of U+000A before its 0x0A *)
-Hypothesis e_not_le : enc_is_le e = false.
 Hypothesis enc_app : forall a b, enc_ (a ++ b) = enc_ a ++ enc_ b.
 Hypothesis enc_nil : enc_ [] = [].
 Hypothesis enc_lf : enc_ [LF] = pre ++ [LF].
@@ -112,14 +96,14 @@ Hypothesis enc_nolf : forall p, good p -> nolf p -> nolf (enc_ p).
 Hypothesis enc_nonnil : forall c t, enc_ (c :: t) <> [].
 Hypothesis good_app : forall a b, good (a ++ b) <-> good a /\ good b.
 
-Lemma next_raw_nonle : forall s, good s ->
-  next_raw e (enc_ s) =
+Lemma next_raw_bytelf : forall s, good s ->
+  next_raw Utf8 (enc_ s) =
   match fst (split_line LF s) with
   | [] => None
   | _ :: _ => Some (enc_ (fst (split_line LF s)), enc_ (snd (split_line LF s)))
   end.
 Proof.
-  intros s G. unfold next_raw. rewrite e_not_le. cbn [andb].
+  intros s G. unfold next_raw. cbn [raw_split].
   destruct (split_line_decomp s) as [(N & H)|(p & q & Hs & N & H)]; rewrite H; cbn [fst snd].
   - pose proof (enc_nolf s G N) as Nb.
     pose proof (split_line_nolf_app (enc_ s) [] Nb) as Hb. rewrite app_nil_r in Hb.
@@ -135,7 +119,7 @@ Proof.
     destruct (enc_ p ++ pre ++ [LF]) eqn:E2; [|reflexivity].
     apply app_eq_nil in E2. destruct E2 as (_ & E2). apply app_eq_nil in E2. destruct E2 as (_ & E2). discriminate.
 Qed.
-End NonLE.
+End ByteLF.
 
 (* ---------- UTF-8 ---------- *)
 
@@ -172,8 +156,7 @@ Lemma lines_pure_utf8 : forall n s, scalar_str s -> (length s < n)%nat ->
 Proof.
   intros n s S L. unfold lines_of_text.
   apply (lines_pure_enc Utf8 utf8_enc scalar_str scalar_split); try assumption; try lia.
-  - intros s0 S0. apply (next_raw_nonle Utf8 utf8_enc scalar_str []); try assumption.
-    + reflexivity.
+  - intros s0 S0. apply (next_raw_bytelf utf8_enc scalar_str []); try assumption.
     + exact utf8_enc_app.
     + reflexivity.
     + reflexivity.
@@ -184,19 +167,7 @@ Proof.
   - exact utf8_roundtrip.
 Qed.
 
-(* ---------- UTF-16 ---------- *)
-
-(* D5 class, negated: every code unit is U+000A or has no byte 0x0A *)
-Definition unit_safe (u : Z) : Prop := u = LF \/ (u mod 256 <> LF /\ u / 256 <> LF).
-Definition lf_safe (s : str) : Prop := Forall unit_safe (utf16_units s).
-Definition unit_safeb (u : Z) : bool := (u =? LF) || (negb (u mod 256 =? LF) && negb (u / 256 =? LF)).
-Definition lf_safeb (s : str) : bool := forallb unit_safeb (utf16_units s).
-
-Lemma lf_safeb_spec : forall s, lf_safeb s = true <-> lf_safe s.
-Proof.
-  intros s. unfold lf_safeb, lf_safe. rewrite forallb_forall, Forall_forall.
-  split; intros H u Hin; specialize (H u Hin); unfold unit_safeb, unit_safe in *; lia.
-Qed.
+(* ---------- UTF-16: the line ends with the first code unit U+000A ---------- *)
 
 Lemma utf16_units_app : forall a b, utf16_units (a ++ b) = utf16_units a ++ utf16_units b.
 Proof. intros; unfold utf16_units; apply flat_map_app. Qed.
@@ -205,56 +176,6 @@ Lemma utf16le_enc_app : forall a b, utf16le_enc (a ++ b) = utf16le_enc a ++ utf1
 Proof. intros; unfold utf16le_enc. rewrite utf16_units_app. apply flat_map_app. Qed.
 Lemma utf16be_enc_app : forall a b, utf16be_enc (a ++ b) = utf16be_enc a ++ utf16be_enc b.
 Proof. intros; unfold utf16be_enc. rewrite utf16_units_app. apply flat_map_app. Qed.
-
-Lemma lf_safe_app : forall a b, lf_safe (a ++ b) <-> lf_safe a /\ lf_safe b.
-Proof. intros; unfold lf_safe. rewrite utf16_units_app. apply Forall_app. Qed.
-
-Definition good16 (s : str) : Prop := scalar_str s /\ lf_safe s.
-
-Lemma good16_app : forall a b, good16 (a ++ b) <-> good16 a /\ good16 b.
-Proof. intros; unfold good16. rewrite scalar_app, lf_safe_app. tauto. Qed.
-
-Lemma good16_split : forall s, good16 s ->
-  good16 (fst (split_line LF s)) /\ good16 (snd (split_line LF s)).
-Proof.
-  intros s G. destruct (split_line_decomp s) as [(N & H)|(p & q & Hs & N & H)]; rewrite H; cbn [fst snd].
-  - split; [exact G|]. split; constructor.
-  - subst s. apply good16_app in G. destruct G as (Gp & Gq).
-    change (LF :: q) with ([LF] ++ q) in Gq. apply good16_app in Gq. destruct Gq as (Gl & Gq).
-    split; [|assumption]. apply good16_app. split; assumption.
-Qed.
-
-(* the code units of a text without line feed are not 0x000A either *)
-Lemma units_nolf : forall p, scalar_str p -> nolf p -> nolf (utf16_units p).
-Proof.
-  induction p as [|c t IH]; intros S N; [constructor|].
-  inversion S as [|c' t' Sc St]; subst. inversion N as [|c' t' Nc Nt]; subst.
-  cbn [utf16_units flat_map]. apply nolf_app; [|apply IH; assumption].
-  unfold utf16_units_char. unfold is_scalar in Sc. unfold LF in *.
-  destruct (c <? 65536) eqn:E.
-  - constructor; [exact Nc|constructor].
-  - constructor; [cbv beta; unfold LF; zdm|]. constructor; [cbv beta; unfold LF; zdm|constructor].
-Qed.
-
-Lemma le_bytes_nolf : forall us, Forall unit_safe us -> nolf us -> nolf (flat_map le_bytes us).
-Proof.
-  induction us as [|u t IH]; intros S N; [constructor|].
-  inversion S as [|u' t' Su St]; subst. inversion N as [|u' t' Nu Nt]; subst.
-  cbn [flat_map]. apply nolf_app; [|apply IH; assumption].
-  destruct Su as [Su|(S1 & S2)]; [contradiction|]. unfold le_bytes. constructor; [exact S1|constructor; [exact S2|constructor]].
-Qed.
-Lemma be_bytes_nolf : forall us, Forall unit_safe us -> nolf us -> nolf (flat_map be_bytes us).
-Proof.
-  induction us as [|u t IH]; intros S N; [constructor|].
-  inversion S as [|u' t' Su St]; subst. inversion N as [|u' t' Nu Nt]; subst.
-  cbn [flat_map]. apply nolf_app; [|apply IH; assumption].
-  destruct Su as [Su|(S1 & S2)]; [contradiction|]. unfold be_bytes. constructor; [exact S2|constructor; [exact S1|constructor]].
-Qed.
-
-Lemma utf16le_enc_nolf : forall p, good16 p -> nolf p -> nolf (utf16le_enc p).
-Proof. intros p (S & F) N. apply le_bytes_nolf; [exact F|apply units_nolf; assumption]. Qed.
-Lemma utf16be_enc_nolf : forall p, good16 p -> nolf p -> nolf (utf16be_enc p).
-Proof. intros p (S & F) N. apply be_bytes_nolf; [exact F|apply units_nolf; assumption]. Qed.
 
 Lemma utf16_units_char_nonnil : forall c, utf16_units_char c <> [].
 Proof. intros c. unfold utf16_units_char. destruct (c <? 65536); discriminate. Qed.
@@ -272,77 +193,134 @@ Proof.
   cbn [app flat_map le_bytes] in E. discriminate.
 Qed.
 
-Lemma lines_pure_utf16be : forall n s, good16 s -> (length s < n)%nat ->
-  lines_pure n Utf16BE (utf16be_enc s) = IoDone (lines_of_text s).
+(* the code units of a scalar value are 16-bit, and U+000A occurs among them
+   only for the line feed itself (a surrogate is never U+000A) *)
+Lemma units_char_facts : forall c, is_scalar c = true ->
+  Forall (fun u => 0 <= u < 65536 /\ (u = LF -> c = LF)) (utf16_units_char c).
 Proof.
-  intros n s G L. unfold lines_of_text.
-  apply (lines_pure_enc Utf16BE utf16be_enc good16 good16_split); try assumption; try lia.
-  - intros s0 G0. apply (next_raw_nonle Utf16BE utf16be_enc good16 [0]); try assumption.
-    + reflexivity.
-    + exact utf16be_enc_app.
-    + reflexivity.
-    + reflexivity.
-    + constructor; [discriminate|constructor].
-    + exact utf16be_enc_nolf.
-    + exact utf16be_enc_nonnil.
-    + exact good16_app.
-  - intros s0 (S0 & _). apply utf16be_roundtrip; exact S0.
+  intros c Sc. unfold utf16_units_char, is_scalar, LF in *. destruct (c <? 65536) eqn:E.
+  - constructor; [split; [lia|auto]|constructor].
+  - constructor; [split; [zdm|intros; zdm]|]. constructor; [split; [zdm|intros; zdm]|constructor].
 Qed.
 
-(* UTF-16LE: the byte 0x0A of a line feed comes first, the decoder fetches the 0x00 *)
+(* a code unit is the line terminator iff it IS U+000A: a byte 0x0A in a unit
+   such as U+4E0A, U+0A41, U+010A or a surrogate does not count *)
+Lemma is_lf_unit_le : forall u, 0 <= u < 65536 -> is_lf_unit true (u mod 256) (u / 256) = (u =? LF).
+Proof.
+  intros u R. unfold is_lf_unit, LF. destruct (u =? 10) eqn:E.
+  - apply Z.eqb_eq in E. subst u. reflexivity.
+  - apply Z.eqb_neq in E. apply Bool.andb_false_iff.
+    destruct (u mod 256 =? 10) eqn:A; [right|left; reflexivity].
+    apply Z.eqb_eq in A. apply Z.eqb_neq. zdm.
+Qed.
+Lemma is_lf_unit_be : forall u, 0 <= u < 65536 -> is_lf_unit false (u / 256) (u mod 256) = (u =? LF).
+Proof.
+  intros u R. unfold is_lf_unit, LF. destruct (u =? 10) eqn:E.
+  - apply Z.eqb_eq in E. subst u. reflexivity.
+  - apply Z.eqb_neq in E. apply Bool.andb_false_iff.
+    destruct (u mod 256 =? 10) eqn:A; [left|right; reflexivity].
+    apply Z.eqb_eq in A. apply Z.eqb_neq. zdm.
+Qed.
 
-Lemma ends_with_lf_app1 : forall a x, ends_with_lf (a ++ [x]) = (x =? LF).
-Proof. intros. unfold ends_with_lf. rewrite last_opt_app1. reflexivity. Qed.
+Lemma scan16_unit : forall le x y m,
+  scan16 le None (x :: y :: m) =
+  if is_lf_unit le x y then ([x; y], m)
+  else (x :: y :: fst (scan16 le None m), snd (scan16 le None m)).
+Proof.
+  intros. cbn [scan16]. destruct (is_lf_unit le x y); [reflexivity|].
+  destruct (scan16 le None m); reflexivity.
+Qed.
 
-Lemma last_unit_le : forall us u, flat_map le_bytes (us ++ [u]) = (flat_map le_bytes us ++ [u mod 256]) ++ [u / 256].
-Proof. intros. rewrite flat_map_app. cbn [flat_map le_bytes app]. rewrite <- app_assoc. reflexivity. Qed.
+Section Scan16.
+Variable le : bool.
+Variable ub : Z -> bytes.                    (* the two bytes of a code unit *)
+Hypothesis ub_two : forall u, exists x y,
+  ub u = [x; y] /\ (0 <= u < 65536 -> is_lf_unit le x y = (u =? LF)).
 
-Lemma next_raw_le : forall s, good16 s ->
+Lemma scan16_units_nolf : forall us m, Forall (fun u => 0 <= u < 65536 /\ u <> LF) us ->
+  scan16 le None (flat_map ub us ++ m) =
+  (flat_map ub us ++ fst (scan16 le None m), snd (scan16 le None m)).
+Proof.
+  induction us as [|u us IH]; intros m F; cbn [flat_map app].
+  - destruct (scan16 le None m); reflexivity.
+  - inversion F as [|u' t' (R & Nu) Ft]; subst. destruct (ub_two u) as (x & y & E & H).
+    rewrite E. cbn [app]. rewrite scan16_unit, (H R).
+    replace (u =? LF) with false by (symmetry; apply Z.eqb_neq; exact Nu).
+    rewrite (IH m Ft). reflexivity.
+Qed.
+
+(* the cut of an encoded text is the encoding of the cut of the text, for EVERY
+   scalar-value text *)
+Lemma scan16_text : forall s, scalar_str s ->
+  scan16 le None (flat_map ub (utf16_units s)) =
+  (flat_map ub (utf16_units (fst (split_line LF s))), flat_map ub (utf16_units (snd (split_line LF s)))).
+Proof.
+  induction s as [|c t IH]; intros S; [reflexivity|]. inversion S as [|c' t' Sc St]; subst.
+  cbn [split_line]. destruct (Z.eqb_spec c LF) as [Ec|Ec].
+  - subst c. cbn [fst snd]. change (utf16_units (LF :: t)) with ([LF] ++ utf16_units t).
+    change (utf16_units [LF]) with [LF]. rewrite flat_map_app. cbn [flat_map]. rewrite app_nil_r.
+    destruct (ub_two LF) as (x & y & E & H). rewrite E. cbn [app]. rewrite scan16_unit, H by (unfold LF; lia).
+    rewrite Z.eqb_refl. reflexivity.
+  - assert (F : Forall (fun u => 0 <= u < 65536 /\ u <> LF) (utf16_units_char c)).
+    { pose proof (units_char_facts c Sc) as F0. rewrite Forall_forall in *. intros u Hu.
+      destruct (F0 u Hu) as (R & Hl). split; [exact R|]. intros E. exact (Ec (Hl E)). }
+    change (utf16_units (c :: t)) with (utf16_units_char c ++ utf16_units t).
+    rewrite flat_map_app, (scan16_units_nolf _ _ F), (IH St).
+    destruct (split_line LF t) as [a b]. cbn [fst snd].
+    change (utf16_units (c :: a)) with (utf16_units_char c ++ utf16_units a).
+    rewrite flat_map_app. reflexivity.
+Qed.
+End Scan16.
+
+Lemma le_two : forall u, exists x y,
+  le_bytes u = [x; y] /\ (0 <= u < 65536 -> is_lf_unit true x y = (u =? LF)).
+Proof. intros u. exists (u mod 256), (u / 256). split; [reflexivity|apply is_lf_unit_le]. Qed.
+Lemma be_two : forall u, exists x y,
+  be_bytes u = [x; y] /\ (0 <= u < 65536 -> is_lf_unit false x y = (u =? LF)).
+Proof. intros u. exists (u / 256), (u mod 256). split; [reflexivity|apply is_lf_unit_be]. Qed.
+
+Lemma next_raw_utf16le : forall s, scalar_str s ->
   next_raw Utf16LE (utf16le_enc s) =
   match fst (split_line LF s) with
   | [] => None
   | _ :: _ => Some (utf16le_enc (fst (split_line LF s)), utf16le_enc (snd (split_line LF s)))
   end.
 Proof.
-  intros s G. unfold next_raw. cbn [enc_is_le andb].
-  destruct (split_line_decomp s) as [(N & H)|(p & q & Hs & N & H)]; rewrite H; cbn [fst snd].
-  - pose proof (utf16le_enc_nolf s G N) as Nb.
-    pose proof (split_line_nolf_app (utf16le_enc s) [] Nb) as Hb. rewrite app_nil_r in Hb.
-    rewrite Hb. cbn [split_line fst snd]. rewrite app_nil_r.
-    destruct s as [|c t]; [reflexivity|].
-    destruct (utf16le_enc (c :: t)) as [|b0 bt] eqn:E; [destruct (utf16le_enc_nonnil c t E)|].
-    (* the last byte is the high byte of the last unit, which is not 0x0A *)
-    assert (Hl : ends_with_lf (b0 :: bt) = false).
-    { rewrite <- E. destruct G as (S & F). pose proof (units_nolf _ S N) as Nu.
-      unfold utf16le_enc. unfold lf_safe in F.
-      destruct (utf16_units (c :: t)) as [|u0 ut] eqn:Eu.
-      - cbn [utf16_units flat_map] in Eu. apply app_eq_nil in Eu. destruct Eu as (Eu & _).
-        destruct (utf16_units_char_nonnil c Eu).
-      - destruct (@exists_last _ (u0 :: ut)) as (us & u & Hu); [discriminate|]. rewrite Hu in *.
-        rewrite last_unit_le, ends_with_lf_app1.
-        apply Forall_app in F. destruct F as (_ & Fu). inversion Fu as [|? ? Su _]; subst.
-        apply Forall_app in Nu. destruct Nu as (_ & Nu). inversion Nu as [|? ? Nu' _]; subst.
-        destruct Su as [Su|(_ & S2)]; [contradiction|]. apply Z.eqb_neq. exact S2. }
-    rewrite Hl. reflexivity.
-  - subst s. apply good16_app in G. destruct G as (Gp & Gq).
-    change (LF :: q) with ([LF] ++ q). rewrite !utf16le_enc_app.
-    change (utf16le_enc [LF]) with [LF; 0]. cbn [app].
-    rewrite (split_line_nolf_app (utf16le_enc p) _ (utf16le_enc_nolf p Gp N)).
-    rewrite split_line_lf. cbn [fst snd].
-    destruct (app_lf_cons p LF) as (y & t & E). rewrite E.
-    rewrite ends_with_lf_app1. cbn [Z.eqb LF Pos.eqb].
-    destruct (utf16le_enc p ++ [LF]) eqn:E2.
-    + apply app_eq_nil in E2. destruct E2 as (_ & E2). discriminate.
-    + rewrite <- E2, <- app_assoc. reflexivity.
+  intros s S. unfold next_raw. cbn [raw_split]. unfold utf16le_enc.
+  rewrite (scan16_text true le_bytes le_two s S).
+  destruct (fst (split_line LF s)) as [|c t]; [reflexivity|].
+  destruct (flat_map le_bytes (utf16_units (c :: t))) eqn:E; [destruct (utf16le_enc_nonnil c t E)|reflexivity].
 Qed.
 
-Lemma lines_pure_utf16le : forall n s, good16 s -> (length s < n)%nat ->
+Lemma next_raw_utf16be : forall s, scalar_str s ->
+  next_raw Utf16BE (utf16be_enc s) =
+  match fst (split_line LF s) with
+  | [] => None
+  | _ :: _ => Some (utf16be_enc (fst (split_line LF s)), utf16be_enc (snd (split_line LF s)))
+  end.
+Proof.
+  intros s S. unfold next_raw. cbn [raw_split]. unfold utf16be_enc.
+  rewrite (scan16_text false be_bytes be_two s S).
+  destruct (fst (split_line LF s)) as [|c t]; [reflexivity|].
+  destruct (flat_map be_bytes (utf16_units (c :: t))) eqn:E; [destruct (utf16be_enc_nonnil c t E)|reflexivity].
+Qed.
+
+Lemma lines_pure_utf16le : forall n s, scalar_str s -> (length s < n)%nat ->
   lines_pure n Utf16LE (utf16le_enc s) = IoDone (lines_of_text s).
 Proof.
-  intros n s G L. unfold lines_of_text.
-  apply (lines_pure_enc Utf16LE utf16le_enc good16 good16_split); try assumption; try lia.
-  - exact next_raw_le.
-  - intros s0 (S0 & _). apply utf16le_roundtrip; exact S0.
+  intros n s S L. unfold lines_of_text.
+  apply (lines_pure_enc Utf16LE utf16le_enc scalar_str scalar_split); try assumption; try lia.
+  - exact next_raw_utf16le.
+  - exact utf16le_roundtrip.
+Qed.
+
+Lemma lines_pure_utf16be : forall n s, scalar_str s -> (length s < n)%nat ->
+  lines_pure n Utf16BE (utf16be_enc s) = IoDone (lines_of_text s).
+Proof.
+  intros n s S L. unfold lines_of_text.
+  apply (lines_pure_enc Utf16BE utf16be_enc scalar_str scalar_split); try assumption; try lia.
+  - exact next_raw_utf16be.
+  - exact utf16be_roundtrip.
 Qed.
 
 (* ---------- T10c: the four encodings of a text give the same lines ---------- *)
@@ -389,24 +367,24 @@ Proof.
   apply lines_pure_utf8; [exact S|]. pose proof (utf8_enc_length s). lia.
 Qed.
 
-Theorem utf16le_bom_lines : forall s, scalar_str s -> lf_safe s ->
+Theorem utf16le_bom_lines : forall s, scalar_str s ->
   one_chunk (bom_le ++ utf16le_enc s) = IoDone (lines_of_text s).
 Proof.
-  intros s S F. rewrite one_chunk_stream. unfold decode_stream.
+  intros s S. rewrite one_chunk_stream. unfold decode_stream.
   change (bom_le ++ utf16le_enc s) with (255 :: 254 :: utf16le_enc s).
   change (from_bom (255 :: 254 :: utf16le_enc s)) with (Utf16LE, 2%nat).
-  cbv beta iota. rewrite skipn2. apply lines_pure_utf16le; [split; assumption|].
+  cbv beta iota. rewrite skipn2. apply lines_pure_utf16le; [exact S|].
   pose proof (utf16_units_length s). unfold utf16le_enc. cbn [length].
   rewrite flat_le_length. unfold str, char, bytes, byte in *. lia.
 Qed.
 
-Theorem utf16be_bom_lines : forall s, scalar_str s -> lf_safe s ->
+Theorem utf16be_bom_lines : forall s, scalar_str s ->
   one_chunk (bom_be ++ utf16be_enc s) = IoDone (lines_of_text s).
 Proof.
-  intros s S F. rewrite one_chunk_stream. unfold decode_stream.
+  intros s S. rewrite one_chunk_stream. unfold decode_stream.
   change (bom_be ++ utf16be_enc s) with (254 :: 255 :: utf16be_enc s).
   change (from_bom (254 :: 255 :: utf16be_enc s)) with (Utf16BE, 2%nat).
-  cbv beta iota. rewrite skipn2. apply lines_pure_utf16be; [split; assumption|].
+  cbv beta iota. rewrite skipn2. apply lines_pure_utf16be; [exact S|].
   pose proof (utf16_units_length s). unfold utf16be_enc. cbn [length].
   rewrite flat_be_length. unfold str, char, bytes, byte in *. lia.
 Qed.
@@ -440,10 +418,10 @@ Proof.
     destruct (254 =? 240 + c / 262144) eqn:C; [zdm|]. reflexivity.
 Qed.
 
-(* T10c as one statement: outside the D5 class the four encodings of a text
-   yield the same lines, for EVERY faultless delivery (any chunking -- single
-   bytes, a BOM split over several chunks --, any placement of Interrupted) *)
-Theorem transparency : forall s, scalar_str s -> lf_safe s ->
+(* T10c as one statement, full strength: the four encodings of a text yield the
+   same lines -- those of the text -- for EVERY scalar-value text (U+4E0A,
+   U+0A41, U+010A, U+1040A, ... included) and EVERY faultless delivery *)
+Theorem transparency : forall s, scalar_str s ->
   forall sch, faultless sch ->
   let L := IoDone (lines_of_text s) in
   read_all_lines (mk_reader (bom_utf8 ++ utf8_enc s) sch) = L /\
@@ -451,7 +429,7 @@ Theorem transparency : forall s, scalar_str s -> lf_safe s ->
   read_all_lines (mk_reader (bom_be ++ utf16be_enc s) sch) = L /\
   (hd 0 s <> 65279 -> read_all_lines (mk_reader (utf8_enc s) sch) = L).
 Proof.
-  intros s S F sch Fs L. unfold L. repeat split.
+  intros s S sch Fs L. unfold L. repeat split.
   - rewrite (read_all_lines_faultless decode_utf8_lossy_spec _ _ Fs), <- one_chunk_stream.
     apply utf8_bom_lines; exact S.
   - rewrite (read_all_lines_faultless decode_utf8_lossy_spec _ _ Fs), <- one_chunk_stream.
@@ -460,6 +438,28 @@ Proof.
     apply utf16be_bom_lines; assumption.
   - intros Hh. rewrite (read_all_lines_faultless decode_utf8_lossy_spec _ _ Fs), <- one_chunk_stream.
     apply utf8_plain_lines; [exact S|apply from_bom_utf8_enc; assumption].
+Qed.
+
+(* in the words of the property: the same result from all four forms *)
+Theorem four_encodings_agree : forall s, scalar_str s -> hd 0 s <> 65279 ->
+  one_chunk (utf8_enc s) = one_chunk (bom_utf8 ++ utf8_enc s) /\
+  one_chunk (utf8_enc s) = one_chunk (bom_le ++ utf16le_enc s) /\
+  one_chunk (utf8_enc s) = one_chunk (bom_be ++ utf16be_enc s).
+Proof.
+  intros s S H. destruct (transparency s S [] faultless_nil) as (A & B & C & D). specialize (D H).
+  unfold one_chunk. rewrite A, B, C, D. repeat split.
+Qed.
+
+Theorem only_unit_lf_ends_a_line : forall u, 0 <= u < 65536 ->
+  is_lf_unit true (u mod 256) (u / 256) = (u =? LF) /\
+  is_lf_unit false (u / 256) (u mod 256) = (u =? LF).
+Proof. intros u R. split; [apply is_lf_unit_le|apply is_lf_unit_be]; exact R. Qed.
+
+Theorem utf16_cut_is_text_cut : forall s, scalar_str s ->
+  scan16 true None (utf16le_enc s) = (utf16le_enc (fst (split_line LF s)), utf16le_enc (snd (split_line LF s))) /\
+  scan16 false None (utf16be_enc s) = (utf16be_enc (fst (split_line LF s)), utf16be_enc (snd (split_line LF s))).
+Proof.
+  intros s S. split; [exact (scan16_text true le_bytes le_two s S)|exact (scan16_text false be_bytes be_two s S)].
 Qed.
 
 (* ---------- UTF-8 streams with arbitrary bytes: damage stays on its line ---------- *)
@@ -490,7 +490,7 @@ Lemma lines_pure_utf8_chunks : forall n b, (length b < n)%nat ->
   lines_pure n Utf8 b = IoDone (map (fun l => trim_end (lossy_spec l)) (chunks LF b)).
 Proof.
   induction n as [|n IH]; intros b L; [lia|].
-  cbn [lines_pure]. unfold next_raw. cbn [enc_is_le andb].
+  cbn [lines_pure]. unfold next_raw. cbn [raw_split].
   destruct b as [|x t]; [reflexivity|].
   rewrite (chunks_split LF (x :: t)) by discriminate.
   pose proof (split_line_length LF (x :: t)) as Hl.
@@ -519,6 +519,85 @@ Theorem utf8_plain_stream_lines : forall b,
 Proof.
   intros b B. rewrite one_chunk_stream. unfold decode_stream.
   rewrite B, skipn_O. apply lines_pure_utf8_chunks. lia.
+Qed.
+
+(* ---------- UTF-16 streams with arbitrary bytes ---------- *)
+
+(* the raw lines of a UTF-16 byte stream: cut behind every code unit U+000A
+   that starts at an even offset.  A byte 0x0A at an odd offset, or whose
+   partner byte is not 0x00, is content; a stream of odd length keeps its lone
+   last byte on the last raw line (Encoding::decode then drops it). *)
+Definition push1 (y : Z) (cs : list bytes) : list bytes :=
+  match cs with [] => [[y]] | c :: cs' => (y :: c) :: cs' end.
+Fixpoint chunks16 (le : bool) (st : option Z) (b : bytes) : list bytes :=
+  match b with
+  | [] => []
+  | y :: t =>
+      match st with
+      | None => push1 y (chunks16 le (Some y) t)
+      | Some x => if is_lf_unit le x y then [y] :: chunks16 le None t
+                  else push1 y (chunks16 le None t)
+      end
+  end.
+
+Lemma chunks16_split : forall le b st, b <> [] ->
+  chunks16 le st b = fst (scan16 le st b) :: chunks16 le None (snd (scan16 le st b)).
+Proof.
+  induction b as [|y t IH]; intros st N; [contradiction|]. cbn [chunks16 scan16].
+  destruct st as [x|].
+  - destruct (is_lf_unit le x y); [reflexivity|]. destruct t as [|z u]; [reflexivity|].
+    rewrite (IH None) by discriminate. destruct (scan16 le None (z :: u)); reflexivity.
+  - destruct t as [|z u]; [reflexivity|].
+    rewrite (IH (Some y)) by discriminate. destruct (scan16 le (Some y) (z :: u)); reflexivity.
+Qed.
+
+Lemma lines_pure_utf16le_chunks : forall n b, (length b < n)%nat ->
+  lines_pure n Utf16LE b = IoDone (map (fun l => trim_end (decode_utf16 (u16_le l))) (chunks16 true None b)).
+Proof.
+  induction n as [|n IH]; intros b L; [lia|].
+  cbn [lines_pure]. unfold next_raw. cbn [raw_split].
+  destruct b as [|x t]; [reflexivity|].
+  rewrite (chunks16_split true (x :: t)) by discriminate.
+  pose proof (scan16_length true (x :: t) None) as Hl.
+  pose proof (proj1 (scan16_nil_iff true None (x :: t))) as Hn.
+  destruct (scan16 true None (x :: t)) as [l r]. cbn [fst snd] in *.
+  destruct l as [|y u]; [discriminate (Hn eq_refl)|].
+  cbn [io_bind decode io_of_outcome map]. rewrite IH by (cbn [length] in *; lia). reflexivity.
+Qed.
+
+Lemma lines_pure_utf16be_chunks : forall n b, (length b < n)%nat ->
+  lines_pure n Utf16BE b = IoDone (map (fun l => trim_end (decode_utf16 (u16_be l))) (chunks16 false None b)).
+Proof.
+  induction n as [|n IH]; intros b L; [lia|].
+  cbn [lines_pure]. unfold next_raw. cbn [raw_split].
+  destruct b as [|x t]; [reflexivity|].
+  rewrite (chunks16_split false (x :: t)) by discriminate.
+  pose proof (scan16_length false (x :: t) None) as Hl.
+  pose proof (proj1 (scan16_nil_iff false None (x :: t))) as Hn.
+  destruct (scan16 false None (x :: t)) as [l r]. cbn [fst snd] in *.
+  destruct l as [|y u]; [discriminate (Hn eq_refl)|].
+  cbn [io_bind decode io_of_outcome map]. rewrite IH by (cbn [length] in *; lia). reflexivity.
+Qed.
+
+(* every line of a UTF-16 stream of ARBITRARY bytes -- odd length, lone
+   surrogates, misaligned 0x0A included -- is the lossy conversion of its own
+   raw line: damage (an unpaired surrogate -> U+FFFD) stays on its line *)
+Theorem utf16le_stream_lines : forall b,
+  one_chunk (bom_le ++ b) = IoDone (map (fun l => trim_end (decode_utf16 (u16_le l))) (chunks16 true None b)).
+Proof.
+  intros b. rewrite one_chunk_stream. unfold decode_stream.
+  change (bom_le ++ b) with (255 :: 254 :: b).
+  change (from_bom (255 :: 254 :: b)) with (Utf16LE, 2%nat).
+  cbv beta iota. rewrite skipn2. apply lines_pure_utf16le_chunks. cbn [length]. lia.
+Qed.
+
+Theorem utf16be_stream_lines : forall b,
+  one_chunk (bom_be ++ b) = IoDone (map (fun l => trim_end (decode_utf16 (u16_be l))) (chunks16 false None b)).
+Proof.
+  intros b. rewrite one_chunk_stream. unfold decode_stream.
+  change (bom_be ++ b) with (254 :: 255 :: b).
+  change (from_bom (254 :: 255 :: b)) with (Utf16BE, 2%nat).
+  cbv beta iota. rewrite skipn2. apply lines_pure_utf16be_chunks. cbn [length]. lia.
 Qed.
 
 (* on well-formed input the automaton is the identity *)
